@@ -137,6 +137,8 @@ def ij_index_inv(k, right_keys, right_index, check_right_unique, rpos, duplicate
     d = right_index
     return (
         forall('k', lambda q: blen(d, q) >= 0)
+        # a non-empty bucket needs a row (keeps the empty-table case decidable by instantiation)
+        and forall('k', lambda q: implies(blen(d, q) > 0, k > 0))
         and forall('ki', lambda q, p: implies(0 <= p < blen(d, q), 0 <= bat(d, q, p) < k and _row_key(right_keys, bat(d, q, p)) == q))
         and forall('kii', lambda q, p, r: implies(0 <= p < r < blen(d, q), bat(d, q, p) < bat(d, q, r)))
         and forall('i', lambda e: implies(0 <= e < k, 0 <= sel(rpos, e) < blen(d, _row_key(right_keys, e))
@@ -483,6 +485,199 @@ class join_wrap(_LJProbeBase):
     column under the input columns' names (exit assertion `lj_exit`)."""
     stop_after = ()
     assume_loops = ('lj_index_inv', 'lj_probe_inv')
+
+    def requires(self, other, left_on, right_on, expect):
+        return _probe_pre(self, other, left_on, right_on) and expect == 'many_to_many'
+
+
+# =================================================================== Table.full_join, C10 / C11
+FJ = 'serif.table.Table.full_join'
+represent(FJ, right_index='symdict', duplicates='symdict', left_keys_seen='symset:key', matched_right_rows='symset:int',
+          result_data='list_of_symlist')
+
+
+def fj_index_ghost_step(k, right_keys, right_index, rpos):
+    k0 = _row_key(right_keys, k)
+    return {'rpos': upd(rpos, k, blen(right_index, k0) - 1)}
+
+
+@loop_invariant(FJ, 'for right_idx in range(right_nrows)', havoc={'right_index': 'symdict', 'duplicates': 'symdict'},
+                ghost={'rpos': 'intarr'}, ghost_init=ij_ghost_init, ghost_step=fj_index_ghost_step)
+def fj_index_inv(k, right_keys, right_index, check_right_unique, rpos, duplicates=None):
+    """Same index invariant as inner_join."""
+    return ij_index_inv(k, right_keys, right_index, check_right_unique, rpos, duplicates)
+
+
+@contract(FJ, props=['C10', 'C11'], variant='index-build')
+class full_join_index(inner_join_index):
+    """C10/C11 (full join, index build): every key maps to the ascending list of the right rows
+    carrying it; the duplicate record is exact."""
+    stop_after = ('fj_index_inv',)
+
+
+def _matched_exact(upto, cur_key, left_keys, right_keys, right_index, matched, lastl, right_nrows):
+    """`matched` is exactly the set of right rows whose key equals the key of a processed left row
+    (cur_key: the left row being processed, whose bucket is partly recorded; None between rows)."""
+    d = right_index
+    return (
+        forall('ii', lambda l, p: implies(0 <= l < upto and 0 <= p < blen(d, _row_key(left_keys, l)),
+                                          smem(matched, bat(d, _row_key(left_keys, l), p))))
+        and forall('i', lambda r: implies(
+            smem(matched, r),
+            0 <= r < right_nrows and (
+                (0 <= sel(lastl, _row_key(right_keys, r)) < upto
+                 and _row_key(left_keys, sel(lastl, _row_key(right_keys, r))) == _row_key(right_keys, r))
+                or (cur_key is not None and _row_key(right_keys, r) == cur_key))))
+    )
+
+
+def fj_probe_ghost_init():
+    return {'start': S.ghost_zero_int(), 'seenby': S.ghost_zero_key(), 'lastl': S.ghost_zero_key()}
+
+
+def fj_probe_ghost_step(k, result_data, start, left_keys, seenby, lastl, check_left_unique):
+    sb = seenby
+    if check_left_unique:
+        sb = upd(seenby, _row_key(left_keys, k), k)
+    return {'start': upd(start, k + 1, llen(result_data[0])), 'seenby': sb, 'lastl': upd(lastl, _row_key(left_keys, k), k)}
+
+
+@loop_invariant(FJ, 'for left_idx in range(left_nrows)',
+                havoc={'result_data': 'list_of_symlist', 'left_keys_seen': 'symset', 'matched_right_rows': 'symset'},
+                ghost={'start': 'intarr', 'seenby': 'keyintarr', 'lastl': 'keyintarr'},
+                ghost_init=fj_probe_ghost_init, ghost_step=fj_probe_ghost_step)
+def fj_probe_inv(k, left_keys, right_keys, left_cols, right_cols, right_index, result_data, start, check_left_unique, seenby,
+                 lastl, matched_right_rows, right_nrows, left_keys_seen=None):
+    """After k left rows of a full join: the left-join blocks so far, the exact seen-set, and the
+    exact set of matched right rows."""
+    return (
+        all(llen(col) == sel(start, k) for col in result_data)
+        and sel(start, k) >= 0
+        and _lj_rows_ok(k, left_keys, left_cols, right_cols, right_index, result_data, start)
+        and _matched_exact(k, None, left_keys, right_keys, right_index, matched_right_rows, lastl, right_nrows)
+        and (left_keys_seen is None or (
+            forall('i', lambda l: implies(0 <= l < k, smem(left_keys_seen, _row_key(left_keys, l))))
+            and forall('k', lambda q: implies(smem(left_keys_seen, q), 0 <= sel(seenby, q) < k and _row_key(left_keys, sel(seenby, q)) == q))))
+    )
+
+
+@loop_invariant(FJ, 'for right_idx in matches', havoc={'result_data': 'list_of_symlist', 'matched_right_rows': 'symset'})
+def fj_emit_inv(k, left_idx, matches, left_keys, right_keys, left_cols, right_cols, right_index, result_data, start,
+                lastl, matched_right_rows, right_nrows):
+    nl = len(left_cols)
+    return (
+        all(llen(col) == sel(start, left_idx) + k for col in result_data)
+        and _lj_rows_ok(left_idx, left_keys, left_cols, right_cols, right_index, result_data, start)
+        and _matched_exact(left_idx, _row_key(left_keys, left_idx), left_keys, right_keys, right_index, matched_right_rows, lastl, right_nrows)
+        and forall('i', lambda p: implies(0 <= p < k, smem(matched_right_rows, S.at(matches, p))))
+        and forall('i', lambda q: implies(
+            sel(start, left_idx) <= q < sel(start, left_idx) + k,
+            all(S.same(lat(result_data[c], q), S.at(left_cols[c]._underlying, left_idx)) for c in range(len(left_cols)))
+            and all(S.same(lat(result_data[nl + c], q), S.at(right_cols[c]._underlying, S.at(matches, q - sel(start, left_idx))))
+                    for c in range(len(right_cols)))))
+    )
+
+
+class _FJProbeBase(_ProbeBase):
+    """C10 (full join, left phase; one key column and one payload column per side, any row counts,
+    any keys): the left-join blocks (one row per match in ascending right order, or one None-padded
+    row), and `matched_right_rows` is exactly the set of right rows whose key occurs on the left
+    (invariants `fj_probe_inv`, `fj_emit_inv`); C11: the left seen-set is exact."""
+    stop_after = ('fj_probe_inv',)
+    assume_loops = ('fj_index_inv',)
+
+
+@contract(FJ, props=['C10', 'C11'], variant='probe-many_to_many')
+class full_join_probe_mm(_FJProbeBase):
+    __doc__ = _FJProbeBase.__doc__
+
+    def requires(self, other, left_on, right_on, expect):
+        return _probe_pre(self, other, left_on, right_on) and expect == 'many_to_many'
+
+
+@contract(FJ, props=['C10', 'C11'], variant='probe-one_to_one')
+class full_join_probe_11(_FJProbeBase):
+    __doc__ = _FJProbeBase.__doc__
+
+    def requires(self, other, left_on, right_on, expect):
+        return _probe_pre(self, other, left_on, right_on) and expect == 'one_to_one'
+
+
+def _unmatched_rows_ok(upto, n2, right_cols, left_cols, matched, result_data, ustart):
+    """Rows appended by the third phase for the right rows r < upto: unmatched right rows in
+    ascending order, each one row (None in every left column, r's cells on the right)."""
+    nl = len(left_cols)
+    return (
+        sel(ustart, 0) == n2
+        and forall('i', lambda r: implies(0 <= r < upto and smem(matched, r), sel(ustart, r + 1) == sel(ustart, r)))
+        and forall('i', lambda r: implies(0 <= r < upto and not smem(matched, r), sel(ustart, r + 1) == sel(ustart, r) + 1))
+        and forall('i', lambda r: implies(0 <= r < upto, n2 <= sel(ustart, r) and sel(ustart, r) <= sel(ustart, upto)))
+        and forall('i', lambda r: implies(0 <= r < upto and not smem(matched, r), sel(ustart, r) < sel(ustart, upto)))
+        and forall('i', lambda r: implies(
+            0 <= r < upto and not smem(matched, r),
+            all(lat(result_data[c], sel(ustart, r)) is None for c in range(len(left_cols)))
+            and all(S.same(lat(result_data[nl + c], sel(ustart, r)), S.at(right_cols[c]._underlying, r)) for c in range(len(right_cols)))))
+    )
+
+
+def fj_tail_ghost_init(start, left_nrows):
+    return {'ustart': upd(S.ghost_zero_int(), 0, sel(start, left_nrows))}
+
+
+def fj_tail_ghost_step(k, result_data, ustart):
+    return {'ustart': upd(ustart, k + 1, llen(result_data[0]))}
+
+
+@loop_invariant(FJ, 'for right_idx in range(right_nrows)#2', havoc={'result_data': 'list_of_symlist'},
+                ghost={'ustart': 'intarr'}, ghost_init=fj_tail_ghost_init, ghost_step=fj_tail_ghost_step)
+def fj_tail_inv(k, left_keys, left_cols, right_cols, right_index, result_data, start, left_nrows, matched_right_rows, ustart):
+    """After k right rows of the third phase: the left-phase rows are untouched and every unmatched
+    right row so far has been appended once, in ascending order."""
+    return (
+        all(llen(col) == sel(ustart, k) for col in result_data)
+        and _lj_rows_ok(left_nrows, left_keys, left_cols, right_cols, right_index, result_data, start)
+        and _unmatched_rows_ok(k, sel(start, left_nrows), right_cols, left_cols, matched_right_rows, result_data, ustart)
+    )
+
+
+@contract(FJ, props=['C10'], variant='tail')
+class full_join_tail(_FJProbeBase):
+    """C10 (full join, third phase): after the left phase every right row that matched no left
+    row is appended exactly once, in ascending right order, with None in every left column; the
+    rows of the left phase stay as they were (invariant `fj_tail_inv`)."""
+    stop_after = ('fj_tail_inv',)
+    assume_loops = ('fj_index_inv', 'fj_probe_inv')
+
+    def requires(self, other, left_on, right_on, expect):
+        return _probe_pre(self, other, left_on, right_on) and expect == 'many_to_many'
+
+
+@exit_assert(FJ)
+def fj_exit(result, result_data=None, ustart=None, left_nrows=None, right_nrows=None, left_cols=None, right_cols=None):
+    """At every return after the three loops of the full join: no columns when both inputs are
+    empty, otherwise the buffers wrapped column by column under the input columns' names."""
+    if ustart is None or result_data is None:
+        return True
+    nout = sel(ustart, right_nrows)
+    cols = list(left_cols) + list(right_cols)
+    if left_nrows == 0 and right_nrows == 0:
+        return len(result._underlying) == 0
+    return (
+        len(result._underlying) == len(cols)
+        and all(len(result._underlying[c]._underlying) == nout for c in range(len(cols)))
+        and all(result._underlying[c]._name == cols[c]._name for c in range(len(cols)))
+        and forall('i', lambda q: implies(
+            0 <= q < nout,
+            all(S.same(S.at(result._underlying[c]._underlying, q), lat(result_data[c], q)) for c in range(len(cols)))))
+    )
+
+
+@contract(FJ, props=['C10', 'C18'], variant='wrap')
+class full_join_wrap(_FJProbeBase):
+    """C10 (full join, result assembly): the returned table is the buffers wrapped column by
+    column under the input columns' names (exit assertion `fj_exit`)."""
+    stop_after = ()
+    assume_loops = ('fj_index_inv', 'fj_probe_inv', 'fj_tail_inv')
 
     def requires(self, other, left_on, right_on, expect):
         return _probe_pre(self, other, left_on, right_on) and expect == 'many_to_many'
